@@ -125,4 +125,9 @@ def run(ctx):
             ctx.notes.append(f"known finding {sig} no longer reproduces on its witness: impl={out[:100]}")
         if out != model:
             ctx.corr_disagreements.append({"case": f["witness"], "impl": out, "model": model, "tag": "known-finding-witness"})
+    for f in load_known().get("fixed", []):
+        if f["property"] == "C02":
+            sigs, out, model = replay_aff_line(f["witness"])
+            for sig in sigs:
+                ctx.spec_failures.append((sig, {"note": "repaired defect is back", "fixed_entry": f["what"], "replay": f["witness"]}))
     return finish(ctx, ["NaN/out-of-range float->int conversions (undefined behaviour) are masked out for zero-scale groups", "CUDA kernels not executable here"])
